@@ -228,4 +228,63 @@ func runC03(e *emitter, tier string, seed uint64) {
 		fn := r.pick(adversarial)
 		doSafe(fn, ps)
 	}
+	for _, s := range adversarial {
+		c03Typed(e, s)
+	}
+	nq := 1500
+	if tier == "thorough" {
+		nq = 40000
+	}
+	c03Quote(e, r, nq)
+}
+
+// --- special value types and the parser's quote tracker ---------------------------------------------------
+
+type c03Named string
+type c03Struct struct {
+	A string         `json:"a"`
+	B []string       `json:"b,omitempty"`
+	C map[string]any `json:"c,omitempty"`
+	D *string        `json:"d"`
+}
+
+// c03TypedValues: the same adversarial string through Go value types that encoding/json treats specially.
+func c03TypedValues(s string) map[string]any {
+	js, _ := json.Marshal(s)
+	return map[string]any{
+		"rawmessage":        json.RawMessage(js),
+		"rawmessage-object": json.RawMessage(`{"k": ` + string(js) + `, "x" : [ ` + string(js) + ` ] }`),
+		"named-string":      c03Named(s),
+		"struct":            c03Struct{A: s, B: []string{s}, C: map[string]any{s: s}, D: &s},
+		"ptr":               &s,
+		"slice":             []string{s, s},
+		"map":               map[string]string{s: s},
+		"bytes":             []byte(s),
+		"jsonnumber":        json.Number("12"),
+		"marshaler":         c03Marshaler{s},
+		"textmarshaler":     c03TextMarshaler{s},
+	}
+}
+
+type c03Marshaler struct{ s string }
+
+func (m c03Marshaler) MarshalJSON() ([]byte, error) { return json.Marshal(map[string]string{"m": m.s}) }
+
+type c03TextMarshaler struct{ s string }
+
+func (m c03TextMarshaler) MarshalText() ([]byte, error) { return []byte(m.s), nil }
+
+func c03Typed(e *emitter, s string) {
+	for name, v := range c03TypedValues(s) {
+		k := "scv " + name + " " + s
+		if !e.mine(k) {
+			continue
+		}
+		in, err1 := templruntime.ScriptContentInsideStringLiteral(v)
+		out, err2 := templruntime.ScriptContentOutsideStringLiteral(v)
+		if err1 != nil || err2 != nil {
+			continue
+		}
+		e.emit(k, "scv", name, hx(s), hx(in), hx(out))
+	}
 }
